@@ -1588,6 +1588,8 @@ def balance_stoichiometry(
 
     if 0 in sol:
         raise ValueError("Superfluous species given.")
+    if any(x.is_negative for x in sol):
+        raise ValueError("No positive solution: a species is on the wrong side.")
     if underdetermined:
         if any(x == sympy.nan for x in sol):
             raise ValueError("Failed to balance reaction")
